@@ -541,6 +541,11 @@ inductive Scope where
   | up (k : Nat)
 deriving DecidableEq, Repr, Inhabited
 
+/-- the name part of a cache key (`cacheKey`, fix 4e63a53): canonical name with every `|` spelled `\124`,
+so that the separator `|` never occurs inside the question part of a key. -/
+def cacheName (s : List Char) : List Char :=
+  (canonName s).flatMap fun c => if c == '|' then ['\\', '1', '2', '4'] else [c]
+
 structure CacheKey where
   name : List Char    -- canonical
   qtype : Nat
@@ -566,8 +571,7 @@ def natDigits (n : Nat) : List Char := digitsFuel (n + 1) n
 def clsSuffix (c : Nat) : List Char := if c == 1 then [] else '#' :: natDigits c
 
 /-- `dnsCacheBaseKey(responseCacheKey)`: the response cache key is `name ++ qtype ++ "|" ++ scope` and
-the base key is everything before the FIRST `|` — which is `name ++ qtype` only when the name itself
-contains no `|` (code as it is; a wire name may contain the byte). -/
+the base key is everything before the FIRST `|`; since 4e63a53 the name part never contains one (`cacheName`). -/
 def baseKeyOf (k : CacheKey) : List Char :=
   (k.name ++ (natDigits k.qtype ++ clsSuffix k.cls)).takeWhile (· != '|')
 
@@ -609,9 +613,9 @@ def handle (cfg : Cfg) (cache : Cache) (dst : Nat) (isResp : Bool) (q? : Option 
     let q := q?.getD noQuestion
     match requestSelect cfg q with
     | .err e => ⟨[], .error e, cache⟩
-    | .reject => ⟨[], .rejected, cache.removeFamily (canonName q.name) q.qtype q.qclass⟩
+    | .reject => ⟨[], .rejected, cache.removeFamily (cacheName q.name) q.qtype q.qclass⟩
     | .to u =>
-      let key : CacheKey := ⟨canonName q.name, q.qtype, scopeOf dst u, q.qclass⟩
+      let key : CacheKey := ⟨cacheName q.name, q.qtype, scopeOf dst u, q.qclass⟩
       match cache.lookup key with
       | some recs => ⟨[], .answers recs true, cache⟩
       | none =>
@@ -648,9 +652,9 @@ def handleOpt (cfg : Cfg) (cache : Cache) (stale : List CacheKey) (dst : Nat) (i
     let q := q?.getD noQuestion
     match requestSelect cfg q with
     | .err e => ⟨[], .error e, cache, stale⟩
-    | .reject => ⟨[], .rejected, cache.removeFamily (canonName q.name) q.qtype q.qclass, stale⟩
+    | .reject => ⟨[], .rejected, cache.removeFamily (cacheName q.name) q.qtype q.qclass, stale⟩
     | .to u =>
-      let key : CacheKey := ⟨canonName q.name, q.qtype, scopeOf dst u, q.qclass⟩
+      let key : CacheKey := ⟨cacheName q.name, q.qtype, scopeOf dst u, q.qclass⟩
       match cache.lookup key with
       | some recs =>
         if stale.contains key && q?.isSome then
